@@ -1335,7 +1335,14 @@ def verify_contract(eng, fns, c, alias_cfg=None):
             S = st2.regions[sid]
             def cell(off, n, dflt):
                 c = S.cells.get(off)
-                return c[1] if c and c[0] == n else dflt
+                if c and c[0] == n:
+                    return c[1]
+                # a field written as part of a wider store (clang merges adjacent field stores)
+                for o, (cn, v) in S.cells.items():
+                    if not isinstance(v, Ptr) and o <= off and off + n <= o + cn and cn > n:
+                        lo = (off - o) * 8
+                        return z3.simplify(z3.Extract(lo + n * 8 - 1, lo, v))
+                return dflt
             dp = cell(0, 8, NULL)
             post[prefix + "_length"] = cell(8, 4, z3.BitVec(prefix + "_length_undef", 32))
             post[prefix + "_capacity"] = cell(12, 4, z3.BitVec(prefix + "_capacity_undef", 32))
